@@ -177,12 +177,51 @@ def check_plain(case):
     return {'nontrivial': nt, 'labels': labels}
 
 
+@st.composite
+def describe_case(draw):
+    # within ONE describe() the generated field names p<int(q*100)> must differ (namedtuple rejects duplicates: invalid
+    # input); ACROSS describe() calls quantiles with the same name (0.99 / 0.995 / 0.999, 0.28 / 0.29) are legal
+    qs = [draw(st.lists(st.sampled_from([0.1, 0.25, 0.28, 0.29, 0.5, 0.75, 0.9, 0.99, 0.999, 0.995]), min_size=1, max_size=3,
+                        unique_by=lambda v: int(v * 100)))
+          for _ in range(draw(st.integers(1, 3)))]
+    xs = draw(st.lists(st.integers(-50, 200), min_size=4, max_size=40))
+    return {'quantiles': qs, 'xs': xs, 'keyed': draw(st.booleans())}
+
+
+def check_describe(case):
+    """rs.math.dist.describe is a tee_map of metric operators: its tuples must equal running each metric on its own and
+    zipping -- also when several describe() operators with different quantile lists are built in one process."""
+    import distogram
+    xs = [float(x) for x in case['xs']]
+    descs = [rs.math.dist.describe(quantiles=q) for q in case['quantiles']]       # all constructed first
+    h = distogram.Distogram(bin_count=20)
+    for x in xs:
+        h = distogram.update(h, x)
+    for q, desc in zip(case['quantiles'], descs):
+        want = [distogram.bounds(h)[0], distogram.bounds(h)[1], distogram.mean(h), distogram.stddev(h)] + [distogram.quantile(h, v) for v in q]
+        pipe = [rs.math.dist.update(bin_count=20, reduce=True), desc]
+        if case['keyed']:
+            r = drive.store([(0, x) for x in xs], [rs.ops.group_by(lambda i: i[0], [rs.ops.map(lambda i: i[1])] + pipe)])
+        else:
+            r = drive.plain(xs, pipe)
+        H.require_clean(r, 'describe', **case)
+        if len(r.items) != 1 or not cmp.same_seq(list(r.items[0]), want, approx=True):
+            raise Violation('describe(quantiles=%r) differs from its metrics computed separately' % (q,), expected=want,
+                            got=[list(i) for i in r.items], **case)
+        if list(r.items[0]._fields) != ['min', 'max', 'mean', 'stddev'] + ['p{}'.format(int(v * 100)) for v in q]:
+            raise Violation('describe fields %r' % (r.items[0]._fields,), **case)
+    names = [tuple('p{}'.format(int(v * 100)) for v in q) for q in case['quantiles']]
+    return {'nontrivial': len(case['quantiles']) >= 2, 'labels': ['keyed' if case['keyed'] else 'plain'] + (['same-field-names'] if len(set(names)) < len(names) else [])}
+
+
 def subs(tier):
     return [
         Sub('mux', check_mux, gen=lambda: mux_case(False), examples={'quick': 1200, 'thorough': 100000},
             doc='tee_map on one multiplexed key vs join of branches run alone (cause-tagged)'),
         Sub('nested', check_mux, gen=lambda: mux_case(True), examples={'quick': 1200, 'thorough': 100000},
             doc='the same per key lifetime under group_by / roll / split / time_split (1-2 levels; slot re-use)'),
+        Sub('describe', check_describe, gen=describe_case, examples={'quick': 300, 'thorough': 20000},
+            doc='rs.math.dist.describe (a tee_map of metric operators) == its metrics computed separately; several describe() per process'),
         Sub('plain', check_plain, gen=plain_case, examples={'quick': 1200, 'thorough': 100000},
             doc='tee_map on a plain Subject-driven observable vs join of the branches run alone, step-tagged'),
     ]
